@@ -11,9 +11,16 @@ THM_GUARD = [
     "GE.PA.Guard.guard_sound",
     "GE.PA.Guard.analyze_sound",
     "GE.PA.Guard.list_sound",
+    "GE.PA.Guard.obj_sound",
+    "GE.PA.Guard.arr_sound",
+    "GE.PA.Guard.obj_final",
+    "GE.PA.Guard.objG_covers",
+    "GE.PA.Guard.arr_final",
+    "GE.PA.Guard.entry_covers",
     "GE.PA.Guard.branch_covers",
     "GE.PA.Guard.unchanged_of_related",
     "GE.PA.Guard.covers_Z",
+    "GE.PA.Guard.objGOld_not_covering",
 ]
 
 
@@ -26,11 +33,15 @@ def run(chk):
     chk.trusted = ["Lean 4.33 kernel", "axioms ⊆ {propext, Classical.choice, Quot.sound}",
                    "GE/Model/PathAnalysis.lean tied by byte-equality of guard / template-data tree strings with the real generator (stream in the C03 check, re-run here)",
                    "real ProcGenWrapper + RangeListManager under node 22 with a stub backend", "update trees built by the oracle from diff(D,D')"]
-    chk.assumptions = ["PARTIAL: proved = no dependency root is forgotten by the analysis (analysis_covers_fields) and the value-level guard_sound for every "
-                       "expression without an object / array literal (data fields, scope variables, member / index chains, calls, operators, ??, conditionals): "
-                       "tree covers diff and guard false => same value; object / array literals and update_refines (the tag / list level) are established by the oracle only",
-                       "guard_sound semantics: values are atoms or objects, member reads null-safe, operators and calls arbitrary pure functions of operand values; "
-                       "hoisted temporaries hold the new index / condition values (TempsOk), scope variables come with covering trees (ScopesOk)",
+    chk.assumptions = ["PARTIAL: proved = no dependency root is forgotten by the analysis (analysis_covers_fields) and the value-level guard_sound for EVERY "
+                       "expression form (data fields, scope variables, object literals with spread, array literals with holes and spread, member / index chains, "
+                       "calls, operators, ??, conditionals): tree covers diff and guard false => same value; update_refines (the tag / list level: if / for / "
+                       "template / slot bookkeeping) is established by the oracle only",
+                       "guard_sound semantics: values are atoms or objects with present / absent keys, member reads null-safe, operators and calls arbitrary pure "
+                       "functions of operand values, array members after the first spread operand an arbitrary function of the remaining operands; a tree node "
+                       "means 'only the marked children differ' (the meaning the framework's tree builder gives it); hoisted temporaries hold the new index / "
+                       "condition values (TempsOk), scope variables come with covering trees (ScopesOk); real trees can only be more marked than the model "
+                       "(inherited members read as truthy) and guards are monotone",
                        "the list protocol of RangeListManager (TypeScript) is executed, not modelled"]
     failed, log = chk.prove("GE.Thm.C06", THEOREMS)
     for t in failed:
